@@ -1,9 +1,10 @@
 #!/usr/bin/env python3
-"""confirm_seed.py <worktree> <prop> <k>: independently confirm a seeded change produced by a sub-agent
+"""confirm_seed.py <worktree> <prop> <k> [<stored-k>]: independently confirm a seeded change produced by a sub-agent
 (in its scratch worktree) and, if confirmed, store it under /verif/seeded/<prop>-<k>/.
 Checks: (a) demo passes on pristine tree, (b) demo fails with patch, (c) full existing suite passes with patch."""
 import sys, os, re, subprocess, json, shutil
 wt, prop, k = sys.argv[1], sys.argv[2], sys.argv[3]
+dstk = sys.argv[4] if len(sys.argv) > 4 else k   # name under /verif/seeded (second round: k + 2)
 src = os.path.join(wt, 'seed_out', k)
 readme = open(os.path.join(src, 'README.txt')).read()
 demo = open(os.path.join(src, 'demo.rs')).read()
@@ -51,7 +52,7 @@ clean()
 print(json.dumps(log, indent=1))
 print('confirmed' if (ok_a and ok_b and ok_c) else 'NOT CONFIRMED', ok_a, ok_b, ok_c)
 if ok_a and ok_b and ok_c:
-    dst = f'/verif/seeded/{prop}-{k}'
+    dst = f'/verif/seeded/{prop}-{dstk}'
     os.makedirs(dst, exist_ok=True)
     for f in ('patch.diff', 'demo.rs', 'README.txt'):
         shutil.copy(os.path.join(src, f), dst)
